@@ -52,6 +52,21 @@ pub enum ReqRef {
     Next(u8),
 }
 
+/// The transaction id a createStream op carries: mostly small integers, but "the caller's
+/// transaction id" is any AMF0 number, so 0 (by convention "no reply expected" for other
+/// commands), large, fractional and negative ones occur too.
+pub fn create_tid(t: u8) -> f64 {
+    match t {
+        10 => 255.0,
+        11 => 65_536.0,
+        12 => 4_294_967_296.0,
+        13 => 9_007_199_254_740_992.0,
+        14 => 0.5,
+        15 => -1.0,
+        x => x as f64,
+    }
+}
+
 #[derive(Clone, Debug, Serialize, Deserialize, PartialEq)]
 pub enum SOp {
     Connect { app: u8, slash: bool, enc: u8, tid: u8 },
@@ -373,7 +388,7 @@ fn eval_inner(case: &Case, clock: &Clock, ex: &mut Exec, age: &mut u64) -> Verdi
                 }
                 Concrete::Peer { bytes: peer.send(&command("connect", *tid as f64, obj(pairs), vec![]), 0, peer_ts), cut: *cut }
             }
-            SOp::CreateStream { tid } => Concrete::Peer { bytes: peer.send(&command("createStream", *tid as f64, V::Null, vec![]), 0, peer_ts), cut: *cut },
+            SOp::CreateStream { tid } => Concrete::Peer { bytes: peer.send(&command("createStream", create_tid(*tid), V::Null, vec![]), 0, peer_ts), cut: *cut },
             SOp::Publish { stream, key, mode } => {
                 let sid = model.stream_id(stream);
                 Concrete::Peer { bytes: peer.send(&command("publish", 0.0, V::Null, vec![st(&key_str(*key)), st(MODES[*mode as usize % MODES.len()])]), sid, peer_ts), cut: *cut }
@@ -507,7 +522,7 @@ fn eval_inner(case: &Case, clock: &Clock, ex: &mut Exec, age: &mut u64) -> Verdi
                 }
                 for (msid, t, sid) in results {
                     vensure!(msid == 0, "{}: createStream result sent on message stream {}", at, msid);
-                    vensure!(t == *tid as f64, "{}: createStream result carries transaction id {} instead of {}", at, t, tid);
+                    vensure!(t.to_bits() == create_tid(*tid).to_bits(), "{}: createStream result carries transaction id {} instead of {}", at, t, create_tid(*tid));
                     match sid {
                         Some(s) if s >= 0.0 && s.fract() == 0.0 => {
                             let s = s as u32;
@@ -847,7 +862,7 @@ fn req_ref() -> BoxedStrategy<ReqRef> {
 pub fn sop() -> BoxedStrategy<SOp> {
     prop_oneof![
         4 => (0u8..3, any::<bool>(), 0u8..3, 1u8..5).prop_map(|(app, slash, enc, tid)| SOp::Connect { app, slash, enc, tid }),
-        5 => (2u8..9).prop_map(|tid| SOp::CreateStream { tid }),
+        5 => prop_oneof![5 => 2u8..9, 2 => gen::pick(&[0u8, 1, 10, 11, 12, 13, 14, 15])].prop_map(|tid| SOp::CreateStream { tid }),
         5 => (stream_ref(), prop_oneof![40 => 0u8..3, 1 => Just(3u8)], prop_oneof![8 => 0u8..4, 1 => Just(4u8)]).prop_map(|(stream, key, mode)| SOp::Publish { stream, key, mode }),
         4 => (stream_ref(), prop_oneof![40 => 0u8..3, 1 => Just(3u8)], 0u8..4, -3i8..5, -2i8..5, any::<bool>()).prop_map(|(stream, key, nargs, start, duration, reset)| SOp::Play { stream, key, nargs, start, duration, reset }),
         3 => stream_ref().prop_map(|stream| SOp::CloseStream { stream }),
